@@ -28,3 +28,16 @@ func (r *Rng) Chance(num, den int) bool { return r.Intn(den) < num }
 func (r *Rng) PickInt(xs []int) int { return xs[r.Intn(len(xs))] }
 
 func (r *Rng) Fork() *Rng { return NewRng(r.U64()) }
+
+// Perm returns a pseudo-random permutation of 0..n-1
+func (r *Rng) Perm(n int) []int {
+	p := make([]int, n)
+	for i := range p {
+		p[i] = i
+	}
+	for i := n - 1; i > 0; i-- {
+		j := r.Intn(i + 1)
+		p[i], p[j] = p[j], p[i]
+	}
+	return p
+}
